@@ -504,7 +504,7 @@ example : IsEigTriple (tensor (smulV 2 ⟨1, 2, 3, 0, 0, 0⟩)) (smulW 2 ⟨1, 2
 example : absMaxPrincipal (smulW 2 ⟨-5, 1, 3⟩) = 2 * absMaxPrincipal (⟨-5, 1, 3⟩ : Principal ℝ) :=
   (signed_functions_smul 2 (by norm_num) exS ⟨-5, 1, 3⟩ (by norm_num) (by norm_num)).1
 
-/-! ## 8. All ten functions are rotation invariant -/
+/-! ## 8. All nine functions are rotation invariant -/
 
 /-- If `t` are the components of `s` in a basis rotated by an orthogonal `Q`, and `w`, `w'` are what
 `eigvalsh` must return for the two matrices, every equivalent stress has the same value. -/
